@@ -10,6 +10,7 @@ not the golden layout: names, comments, blank lines and temp numbering are irrel
 
 Terms are JSON-able dicts: {"op": NAME, "args": [...], ...attributes}.
 """
+import json
 import re
 
 TOK = re.compile(
@@ -247,6 +248,20 @@ def _uses(e, out, mode="raw"):
             _uses(a, out, "raw")
 
 
+def _shape(e):
+    """the initialiser with every DUP(x) read as x (two effects with the same shape are built from the same operands)"""
+    t = e["t"]
+    if t == "call":
+        if e["f"] == "DUP" and len(e["a"]) == 1:
+            return _shape(e["a"][0])
+        return "%s(%s)" % (e["f"], ",".join(_shape(a) for a in e["a"]))
+    if t == "id":
+        return e["n"]
+    if t == "ccast":
+        return _shape(e["e"])
+    return json.dumps(e, sort_keys=True)
+
+
 def body_events(b):
     """Sequence of events for EmitC.tla: one per declaration plus the return."""
     ev = []
@@ -264,6 +279,9 @@ def body_events(b):
                 "valid": bool(C_IDENT.match(d["name"])),
                 "uses": [{"n": n, "m": m} for n, m in u if m != "callee"],
                 "callees": sorted({n for n, m in u if m == "callee"}),
+                # for the named deviation StmtExprTwin of EmitC.tla
+                "init": _shape(d["expr"]) if d["kind"] == "effect" else "",
+                "gcc": d["name"].startswith("gcc_expr"),
             }
         )
     u = []
